@@ -27,7 +27,8 @@ EXPLANATION = (
     'run_sql does not commit the open transaction on the transactional path; '
     'R-C07.6 no handler for a broad exception class (Exception, database '
     'errors) in any function reachable from Evolver.evolve can continue '
-    'normally (no swallowed failure on the execution path).')
+    'normally (no swallowed failure on the execution path); '
+    'R-C07.2 also requires that no atomic() is opened with savepoint=False (inside a caller\'s transaction nothing could be rolled back).')
 NOT_DECIDED = (
     'Actual rollback behaviour of SQLite/Django for every failing statement '
     'index, and retry equivalence: these need execution (fault enumeration) '
@@ -203,6 +204,25 @@ def r2_atomic_bound(ctx):
                 ctx.finding(f, c, 'atomic(using=%s) is not the stored alias '
                             '%s' % (unparse(using), ' / '.join(avail)))
     ctx.floor('atomic() call sites', sites, 3)
+    # R-C07.2 (second clause): every such transaction can be rolled back on
+    # its own.  savepoint=False inside a caller's open transaction leaves
+    # nothing to roll back to: the failed upgrade's statements stay applied
+    # in the outer transaction and the connection is marked needs_rollback.
+    for f in p.all_funcs():
+        for c in walk_no_nested(f.node):
+            if isinstance(c, ast.Call) and call_name(c) == 'atomic':
+                sp = kwarg(c, 'savepoint')
+                if sp is not None and not (isinstance(sp, ast.Constant) and
+                                           sp.value is True):
+                    ctx.finding(f, c, 'atomic(..., savepoint=%s): inside an '
+                                'enclosing transaction the upgrade\'s own '
+                                'transaction is not a savepoint, so a failed '
+                                'statement cannot be rolled back without '
+                                'abandoning the caller\'s transaction, and '
+                                'the upgrade cannot be retried' % unparse(sp),
+                                key='atomic-without-savepoint')
+                else:
+                    ctx.ok(f, 'atomic() keeps its savepoint', c)
 
 
 def writer_funcs(program):
